@@ -12,9 +12,22 @@ MANIFEST = {
             "unevaluated individuals of the problem dimension with coordinates inside / permutations of all positions. "
             "Every transition of the bounded model (every lattice point, every operator, operator after operator) is "
             "replayed through Component::execute on a real State for four dyadic domains where lattice and arithmetic "
-            "are exact, each execution under a watchdog (a hang is the reply `timeout`); float neighbours of the "
+            "are exact, each execution under a watchdog (a hang is the reply `timeout`); the transitions of the 2- and "
+            "4-dimensional models (initial populations of up to 2 individuals, every repair) are replayed under "
+            "HETEROGENEOUS domain lists of every shape, every rotation (later dimension narrower and wider): all "
+            "bounds different, one lower bound with different upper bounds (above, below and across zero), one upper "
+            "bound with different lower bounds, nested ranges with width ratios 1/64..64. Float neighbours of the "
             "bounds, fractional/whole multiples of the width up to 1e6, non-dyadic domains, random values and seeds, "
-            "population sizes 0..50 and dimensions 0..20 are driven randomly; TLC validates every recorded execution.",
+            "population sizes 0..50 and dimensions 0..20 are driven randomly, every second run on a seeded domain list "
+            "of a given shape (equal lower / equal upper bounds, narrowing, widening, below / across / above zero, "
+            "homogeneous, width ratios 1e-3..1e3). A systematic grid executes every initialiser obtained in EVERY way "
+            "(each public constructor incl. RandomBitstring::new_uniform, Initialization::initialize, the public "
+            "generator function) for the dimensions 0, 1, 2, 31..33, 63..65, 127..129, 192, 256 - bitstrings with the "
+            "probabilities 0, 1, exactly 0.5, 0.1, 0.25, 0.9, 1e-300, 1 - 1e-9 - and random_spread plus every repair "
+            "(built by `new` and `from_params`) on domain lists of every shape with 2, 3 and 6 dimensions; the check "
+            "fails as vacuous unless each (dimension, probability, way) and each (shape fact, way / repair) occurred. "
+            "TLC validates every recorded execution: n unevaluated individuals of the problem's dimension, every "
+            "coordinate inside the range of ITS dimension.",
     "technique": "TLA+ spec + TLC model checking + TLC trace validation of replayed transition tours and seeded random runs under a watchdog",
     "design_ref": "DESIGN.md §6 C14",
     "note": "coordinates reach the spec as P-class + exact lattice index (dyadic domains only) + bit-identity mask; "
@@ -24,6 +37,21 @@ MANIFEST = {
 
 PROPS = "Terminates Inside InsideUntouched Idempotent ExactOnLattice InitExact"
 DOMAINS = "-1:1,0:4,-4:12,0.5:0.75"
+# heterogeneous domain lists by SHAPE (dyadic ranges: lattice and arithmetic exact); a D-dimensional scenario is
+# replayed once per rotation, dimension j in range (j + rotation) mod 4, so every list gives "later narrower" and
+# "later wider" neighbours
+SHAPE_LISTS = {
+    "distinct": DOMAINS,                              # all four bounds differ
+    "eq_lo": "0:4,0:1,0:0.5,0:2",                     # one lower bound, upper bounds differ
+    "eq_hi": "-4:0,-1:0,-0.5:0,-2:0",                 # one upper bound, lower bounds differ
+    "eq_lo_neg": "-4:-2,-4:-3,-4:4,-4:-3.5",          # ... below zero / across zero
+    "nested": "-8:8,-2:2,-0.25:0.25,-4:4",            # width ratios 1/64 .. 64 around a common centre
+}
+# coverage the seeded / systematic executions must reach (harness: WORD_DIMS, PROBS, SHAPES, INIT_VIAS)
+WORD_DIMS = [0, 1, 63, 64, 65, 127, 128, 129, 192, 256]
+PROB_CLASSES = ["0.0", "1.0", "0.5", "0.1", "0.9", "1e-300"]
+SHAPES = ["indep", "eq_lo", "eq_hi", "narrowing", "widening", "signs", "homog", "dyadic"]
+INIT_VIAS = ["new", "from_params", "initialize", "functional"]
 
 
 def cfg_mc(d, f, maxn, export, cands="McCands", masks=False):
@@ -155,6 +183,79 @@ def extreme_scenarios(ctx):
     return path, len(runs)
 
 
+def dom_shapes(dom):
+    """Shape facts of a logged domain list (['lo:hi', ...])."""
+    d = [tuple(float(v) for v in t.split(":")) for t in dom]
+    facts = set()
+    if len(d) < 2:
+        return facts
+    los, his, ws = [x[0] for x in d], [x[1] for x in d], [x[1] - x[0] for x in d]
+    if len(set(los)) == 1 and len(set(his)) > 1:
+        facts.add("eq_lo")
+        if any(h < his[0] for h in his[1:]):
+            facts.add("eq_lo_later_narrower")
+        if any(h > his[0] for h in his[1:]):
+            facts.add("eq_lo_later_wider")
+    if len(set(his)) == 1 and len(set(los)) > 1:
+        facts.add("eq_hi")
+        if any(l > los[0] for l in los[1:]):
+            facts.add("eq_hi_later_narrower")
+        if any(l < los[0] for l in los[1:]):
+            facts.add("eq_hi_later_wider")
+    if any(w < ws[0] for w in ws[1:]):
+        facts.add("later_narrower")
+    if any(h <= 0 for h in his):
+        facts.add("negative")
+    if any(l < 0 < h for l, h in d):
+        facts.add("mixed_sign")
+    r = max(ws) / min(ws)
+    if r >= 999:
+        facts.add("ratio_1e3")
+    if len(set(d)) == 1:
+        facts.add("homogeneous")
+    return facts
+
+
+SHAPE_FACTS = ["eq_lo_later_narrower", "eq_lo_later_wider", "eq_hi_later_narrower", "eq_hi_later_wider",
+               "later_narrower", "negative", "mixed_sign", "ratio_1e3", "homogeneous"]
+
+
+def coverage(trace_path):
+    """Tool error unless the recorded executions cover: bitstrings and permutations of every dimension around the
+    word sizes, with every probability class, obtained in every way (every constructor incl. new_uniform,
+    Initialization::initialize, the generator function); random_spread and every repair on domain lists with every
+    shape fact, random_spread obtained in every way there."""
+    import collections
+    bits, perms, spread, repair = set(), set(), collections.Counter(), collections.Counter()
+    dom = []
+    for line in open(trace_path):
+        r = json.loads(line)
+        a = r["act"]
+        if a["op"] == "reset":
+            dom, dim = r.get("dom", []), a["n"]
+            facts = dom_shapes(dom)
+            continue
+        if r["res"]["k"] != "ok":
+            continue
+        if a["op"] == "random_bitstring" and a["n"] >= 1:
+            bits.add((dim, r.get("prob"), r.get("via")))
+        elif a["op"] == "random_permutation" and a["n"] >= 1:
+            perms.add((dim, r.get("via")))
+        elif a["op"] == "random_spread" and a["n"] >= 1:
+            for f in facts:
+                spread[(f, r.get("via"))] += 1
+        elif a["op"] in ("saturation", "toroidal", "mirror", "cotnc") and r["stack"] and r["stack"][-1]:
+            for f in facts:
+                repair[(f, a["op"])] += 1
+    missing = [(d, p, v) for d in WORD_DIMS for p in PROB_CLASSES for v in INIT_VIAS if (d, p, v) not in bits]
+    missing += [(d, "0.5", "new_uniform") for d in WORD_DIMS if (d, "0.5", "new_uniform") not in bits]
+    missing += [(d, v) for d in WORD_DIMS for v in INIT_VIAS if (d, v) not in perms]
+    missing += [(f, v) for f in SHAPE_FACTS for v in INIT_VIAS if not spread[(f, v)]]
+    missing += [(f, op) for f in SHAPE_FACTS for op in ("saturation", "toroidal", "mirror", "cotnc") if not repair[(f, op)]]
+    if missing:
+        raise vlib.ToolError("vacuous random run: never executed: %s" % missing[:12])
+
+
 def run(ctx):
     q = ctx.quick
     # (A) design check: big-step model on the lattice, and the loops step by step
@@ -169,17 +270,29 @@ def run(ctx):
                                    "random_permutation", "random_bitstring"], "component")
     ex4 = ctx.tlc_mc("MC_Boundary", cfg_mc(4, 1 if q else 2, 0, True, "McCands1"), "export4", workers=1, timeout=1500)
     scen4, _ = export_scenarios(ctx, ex4["out"], "tour4")
+    # two dimensions with initial populations of up to 2 (3) individuals: initialisation and repair where the
+    # dimensions have different ranges
+    ex2 = ctx.tlc_mc("MC_Boundary", cfg_mc(2, 1, 2 if q else 3, True, "McCands1"), "export2", workers=1, timeout=1500)
+    scen2, edges2 = export_scenarios(ctx, ex2["out"], "tour2")
+    vlib.vacuity(edges2, "act.op", ["set_pop", "saturation", "toroidal", "mirror", "cotnc", "random_spread"], "component")
+    if not any(e["act"]["op"] == "random_spread" and e["act"]["n"] >= 2 for e in edges2):
+        raise vlib.ToolError("vacuous model: no 2-dimensional random_spread of two individuals")
     wd = 1000 if q else 2000
     tr = os.path.join(ctx.work, "tour.trace.ndjson")
     ctx.harness("boundary", "replay", **{"in": scen, "out": tr, "domains": DOMAINS, "rot": 4, "seed": ctx.seed,
                                          "watchdog-ms": wd})
     ctx.validate("Trace_Boundary", CFG_TRACE, tr, "tour", DESCRIBE,
                  {"driver": "boundary", "mode": "replay", "domains": DOMAINS})
-    tr4 = os.path.join(ctx.work, "tour4.trace.ndjson")
-    ctx.harness("boundary", "replay", **{"in": scen4, "out": tr4, "domains": DOMAINS, "rot": 4, "seed": ctx.seed,
+    # the 2- and 4-dimensional tours under every shape of domain list (one trace)
+    scen24 = os.path.join(ctx.work, "tour24.scen.ndjson")
+    with open(scen24, "w") as f:
+        f.write(open(scen4).read() + open(scen2).read())
+    all_lists = ";".join(SHAPE_LISTS.values())
+    tr24 = os.path.join(ctx.work, "tour24.trace.ndjson")
+    ctx.harness("boundary", "replay", **{"in": scen24, "out": tr24, "domains": all_lists, "rot": 4, "seed": ctx.seed,
                                          "watchdog-ms": wd})
-    ctx.validate("Trace_Boundary", CFG_TRACE, tr4, "tour4", DESCRIBE,
-                 {"driver": "boundary", "mode": "replay", "domains": DOMAINS})
+    ctx.validate("Trace_Boundary", CFG_TRACE, tr24, "tour24", DESCRIBE,
+                 {"driver": "boundary", "mode": "replay", "domains": all_lists})
     # extreme magnitudes (every finite solution): fixed cases, short watchdog
     escen, nruns = extreme_scenarios(ctx)
     tre = os.path.join(ctx.work, "extreme.trace.ndjson")
@@ -189,9 +302,10 @@ def run(ctx):
     # (C) impl -> spec: random populations / domains / seeds, random initialisations
     n, ni = (400, 150) if q else (20000, 4000)
     tr2 = os.path.join(ctx.work, "random.trace.ndjson")
-    ctx.harness("boundary", "random", out=tr2, seed=ctx.seed, n=n, **{"n-init": ni, "watchdog-ms": 2000})
+    ctx.harness("boundary", "random", out=tr2, seed=ctx.seed, n=n, grid=1, **{"n-init": ni, "watchdog-ms": 2000})
+    coverage(tr2)
     ctx.validate("Trace_Boundary", CFG_TRACE, tr2, "random", DESCRIBE,
-                 {"driver": "boundary", "mode": "random", "seed": ctx.seed, "n": n, "n_init": ni})
+                 {"driver": "boundary", "mode": "random", "seed": ctx.seed, "n": n, "n_init": ni, "grid": 1})
     ctx.assumptions += [
         "design check: every lattice point up to %d widths on both sides (dimension 1, every bit-identity mask), "
         "dimension 2 with each lattice point paired with a shifted one on a smaller lattice; loops step by step up "
@@ -202,6 +316,13 @@ def run(ctx):
         "recorded as reply `timeout`",
         "random coordinates reach up to 1e6 widths from the domain; beyond that only the fixed extreme cases "
         "(1e17 on [-1,1], 1e308 on [0.5,0.75], both signs) are exercised",
+        "heterogeneous domains: dyadic lists %s under 4 rotations for the model's transitions; seeded lists of the "
+        "shapes %s for the random and systematic runs; real-valued domains only (the harness problem is "
+        "LimitedVectorProblem<Element = f64>; random_spread is generic in the element type)" %
+        (json.dumps(SHAPE_LISTS), ", ".join(SHAPES)),
+        "initialisers through Initialization::initialize / the generator functions are wrapped into unevaluated "
+        "individuals and pushed by the harness (as src/components/initialization/mod.rs does); count, dimension "
+        "and containment are the code's",
     ]
     return ctx.finish(RULE)
 
@@ -210,7 +331,7 @@ def replay(ctx, rp):
     meta = rp["meta"]
     tr = os.path.join(ctx.work, "replay.trace.ndjson")
     if meta.get("mode") == "random":
-        ctx.harness("boundary", "random", out=tr, seed=meta["seed"], n=meta["n"],
+        ctx.harness("boundary", "random", out=tr, seed=meta["seed"], n=meta["n"], grid=meta.get("grid", 0),
                     **{"n-init": meta["n_init"], "watchdog-ms": 2000})
     else:
         hdr = rp.get("header") or {}
